@@ -488,7 +488,7 @@ CHECKS = {
         ],
         "expected_probes": ["configuration-accepted", "configuration-rejected", "add-and-query-by-different-tasks", "add-and-query-by-different-clients",
                             "multi-answer-mixes-present-and-absent", "noscript-after-script-flush", "reset-or-delete-near-query", "count-positive",
-                            "hash-functions>=300", "bitmap-beyond-2^31-bits", "zero-hash-functions"],
+                            "hash-functions>=300", "bitmap-beyond-2^31-bits"],
         "components": {"real": "package github.com/redis/rueidis/rueidisprob (sizing, murmur3 indexes, argument building, result aggregation, its Lua scripts as sent) and "
                                "github.com/redis/rueidis built from /repo's working tree with -tags verif",
                        "stubs": dict(STUBS, **{"lua": "verifsim/lualite interprets the scripts the client sends", "bitmaps": "verifsim/fakeredis cmd_prob.go: sparse pages, whole 2^32-bit range"})},
@@ -518,7 +518,7 @@ CHECKS = {
             {"module": "rueidisprob", "scenario": "cbloom", "variant": "impossible", "quick": 2000, "thorough": 100000},
         ],
         "expected_probes": ["configuration-accepted", "configuration-rejected", "add-and-query-by-different-tasks", "multiplicity>1", "noscript-after-script-flush",
-                            "removal-that-would-go-negative", "removal-call-mixes-possible-and-impossible", "hash-functions>=300", "zero-hash-functions"],
+                            "removal-that-would-go-negative", "removal-call-mixes-possible-and-impossible", "hash-functions>=300"],
         "components": {"real": "package github.com/redis/rueidis/rueidisprob and github.com/redis/rueidis built from /repo's working tree with -tags verif",
                        "stubs": dict(STUBS, **{"lua": "verifsim/lualite interprets the scripts the client sends"})},
         "assumptions": [
@@ -543,7 +543,7 @@ CHECKS = {
             {"module": "rueidisprob", "scenario": "sbloom", "quick": 5000, "thorough": 250000},
         ],
         "expected_probes": ["configuration-accepted", "configuration-rejected", "rotated", "rotated>2", "judged-across-a-rotation", "judged-in-last-quarter-of-half-window",
-                            "added-item-reported-absent-after-its-window", "add-and-query-by-different-clients", "noscript-after-script-flush", "zero-hash-functions"],
+                            "added-item-reported-absent-after-its-window", "add-and-query-by-different-clients", "noscript-after-script-flush"],
         "components": {"real": "package github.com/redis/rueidis/rueidisprob and github.com/redis/rueidis built from /repo's working tree with -tags verif",
                        "stubs": dict(STUBS, **{"lua": "verifsim/lualite interprets the scripts the client sends", "bitmaps": "verifsim/fakeredis cmd_prob.go"})},
         "assumptions": [
